@@ -8,7 +8,9 @@
 //!             occupies are read/write, the page before and the page after are PROT_NONE);
 //!          1: VolatileSlice over a FAKE range (unsafe VolatileSlice::new, never dereferenced),
 //!             used to reach the pointer-overflow branches near usize::MAX;
-//!          2/3/4: MmapRegion / GuestRegionMmap / GuestMemoryMmap over the listed regions.
+//!          2/3/4: MmapRegion / GuestRegionMmap / GuestMemoryMmap over the listed regions;
+//!          5/6/7: third-party `VolatileMemory` implementors (struct Odd), 8: a chunked one (struct
+//!             Chunked, the list then holds [chunk, gap]) - suite C01impl.
 //! Requests (code): see coq/Spec/C01.v.  A chain continues from the last accessor obtained.
 //! Observation of an accessor: pointer of its guard (or the reference itself) minus the root's
 //! base, its own len(), the guard's len(), the element count.  For real roots the first and the
@@ -153,9 +155,39 @@ impl VolatileMemory for Odd {
     }
 }
 
+/// A CHUNKED `VolatileMemory` implementor the crate did not write (root kind 8): `len` logical
+/// bytes that physically are chunks of `c` bytes separated by gaps of `g >= 1` bytes which do NOT
+/// belong to the memory (logical byte i lives at base + (i/c)*(c+g) + i%c).  A `VolatileSlice` is
+/// contiguous, so `get_slice(o, n)` answers - as the trait documentation allows - the part of the
+/// request that lies in the chunk of `o`; requests past `len` are refused.  A provided method that
+/// fabricates an accessor of size_of::<T>() bytes from a shorter slice would reach into the gap.
+/// The address range is never dereferenced.  Transcribed as `chunk_gs` in coq/Suite/C01impl.v.
+struct Chunked {
+    base: usize,
+    len: usize,
+    c: usize,
+    g: usize,
+}
+impl VolatileMemory for Chunked {
+    type B = ();
+    fn len(&self) -> usize {
+        self.len
+    }
+    fn get_slice(&self, offset: usize, count: usize) -> Result<VolatileSlice<'_, ()>, VErr> {
+        if (offset as u128) + (count as u128) > self.len as u128 {
+            return Err(VErr::OutOfBounds { addr: offset });
+        }
+        let phys = (offset / self.c) * (self.c + self.g) + offset % self.c;
+        let n = std::cmp::min(count, self.c - offset % self.c);
+        // SAFETY: never dereferenced (fake parent); the range lies inside one chunk
+        Ok(unsafe { VolatileSlice::new((self.base + phys) as *mut u8, n) })
+    }
+}
+
 #[derive(Clone, Copy)]
 enum Acc {
     Odd(&'static Odd),
+    Chunked(&'static Chunked),
     Slice(&'static VS),
     Ref(&'static dyn DynRef),
     Arr(&'static dyn DynArr),
@@ -392,6 +424,10 @@ fn request(ar: &mut Arena, cur: Acc, code: u64, ty: u64, a: usize, b: usize) -> 
             0 => Out::Err(7),
             _ => vm_request(ar, m, code, ty, a, b),
         },
+        Acc::Chunked(m) => match code {
+            0 => Out::Err(7),
+            _ => vm_request(ar, m, code, ty, a, b),
+        },
         Acc::Ref(r) => match code {
             12 => Out::New(ar.slice(r.to_slice())),
             _ => Out::Err(7),
@@ -445,6 +481,7 @@ fn exec(case: &[Tok]) -> Vec<Tok> {
     let mut gregions: Vec<*mut GuestRegionMmap<()>> = Vec::new();
     let mut gmem: Option<*mut GuestMemoryMmap<()>> = None;
     let mut odd: Option<*mut Odd> = None;
+    let mut chunked: Option<*mut Chunked> = None;
     let mut root = Root { kind: rk, hosts: vec![], gbases: vec![], touch: rk == 0 };
     let mut cur: Acc = match rk {
         0 | 1 => {
@@ -489,6 +526,17 @@ fn exec(case: &[Tok]) -> Vec<Tok> {
             odd = Some(m);
             Acc::Odd(unsafe { &*m })
         }
+        8 => {
+            assert!(regs.len() == 2);
+            let (c, g) = (regs[0] as usize, regs[1] as usize);
+            assert!(c >= 1 && g >= 1 && len <= isize::MAX as usize);
+            let span = ((len / c) as u128 + 1) * (c as u128 + g as u128);
+            assert!((base as u128) + span < 1u128 << 64);
+            root.hosts.push((base, span as usize));
+            let m = Box::into_raw(Box::new(Chunked { base, len, c, g }));
+            chunked = Some(m);
+            Acc::Chunked(unsafe { &*m })
+        }
         _ => panic!("bad root kind"),
     };
     let mut ridx = 0usize;
@@ -527,6 +575,9 @@ fn exec(case: &[Tok]) -> Vec<Tok> {
         drop(unsafe { Box::from_raw(g) });
     }
     if let Some(m) = odd {
+        drop(unsafe { Box::from_raw(m) });
+    }
+    if let Some(m) = chunked {
         drop(unsafe { Box::from_raw(m) });
     }
     let _ = root.kind;
@@ -830,6 +881,102 @@ fn gen_impl(rng: &mut Rng, tier: Tier, emit: &mut dyn FnMut(Vec<Tok>)) {
             }
             // the own get_slice: answered "not applicable" by the harness, not judged
             emit(case_slice(k, base, len, vec![op(0, 0, 0, len)]));
+        }
+    }
+    gen_impl_chunked(rng, quick, emit);
+}
+
+/// chunked implementors: (logical length, chunk, gap) x base alignments x every provided method x
+/// element type x every offset around the chunk boundaries
+fn gen_impl_chunked(rng: &mut Rng, quick: bool, emit: &mut dyn FnMut(Vec<Tok>)) {
+    let case_chunk = |base: u64, len: u64, c: u64, g: u64, ops: Vec<Tok>| {
+        let mut v = vec![n(crate::build_mode()), n(8u8), n(base), n(len), Tok::L(vec![c as u128, g as u128])];
+        v.extend(ops);
+        v
+    };
+    // (L, c, g): the demonstration of seed C01-7 first; a partial last chunk; chunk sizes on
+    // both sides of the element sizes; gaps smaller and larger than an element
+    let mut geos: Vec<(u64, u64, u64)> = vec![(24, 12, 4), (16, 8, 8), (20, 8, 1), (7, 3, 5), (32, 16, 16), (48, 20, 12)];
+    if !quick {
+        geos.extend([(64, 32, 32), (9, 1, 1), (40, 24, 8), (0, 4, 4), (4096, 4096, 4096), (8192, 4096, 16)]);
+    }
+    let big: [(u64, u64, u64, u64); 3] = [(4096, 1 << 33, 1 << 20, 1 << 12), (8, i64::MAX as u64 - 7, 1 << 62, 8), (4099, 65536, 4096, 4096)];
+    for &(len, c, g) in &geos {
+        for shift in if quick { vec![0u64, 4, 1] } else { vec![0u64, 1, 2, 4, 8] } {
+            let base = 0x7100_0000_0000 + 4096 - shift;
+            emit(case_chunk(base, len, c, g, vec![op(1, 0, 0, 0)]));
+            emit(case_chunk(base, len, c, g, vec![op(0, 0, 0, len)]));
+            let mut offs: Vec<u64> = if len <= 64 { (0..=len + 2).collect() } else { bset(len, base) };
+            if len > 64 {
+                for k in 0..=20u64 {
+                    offs.push(c.wrapping_sub(k));
+                    offs.push(c + k);
+                }
+            }
+            offs.extend([u64::MAX, u64::MAX - 7, 1 << 63]);
+            for &a in &offs {
+                for ty in 0..9u64 {
+                    for code in [2u64, 4, 5] {
+                        let mut ops = vec![op(code, ty, a, 0)];
+                        if code == 2 && rng.chance(1, 4) {
+                            ops.push(op(12, 0, 0, 0));
+                            ops.push(op(8, 0, rng.below(3), rng.below(4)));
+                        }
+                        emit(case_chunk(base, len, c, g, ops));
+                    }
+                    if ty < 4 {
+                        emit(case_chunk(base, len, c, g, vec![op(6, ty, a, 0)]));
+                    }
+                    let sz = TY_SIZE[ty as usize] as u64;
+                    // element counts around what is left of the chunk and of the memory
+                    let left_chunk = if a <= len { c - a % c } else { 0 };
+                    let mut ns = vec![0u64, 1, 2];
+                    for room in [left_chunk, len.saturating_sub(a)] {
+                        let q = room / sz.max(1);
+                        ns.extend([q, q + 1, q.saturating_sub(1)]);
+                    }
+                    ns.sort();
+                    ns.dedup();
+                    for &nn in &ns {
+                        if !quick || rng.chance(1, 3) {
+                            let mut ops = vec![op(3, ty, a, nn)];
+                            if rng.chance(1, 4) {
+                                ops.push(op(13, 0, rng.below(nn + 2), 0));
+                            } else if rng.chance(1, 4) {
+                                ops.push(op(14, 0, 0, 0));
+                            }
+                            emit(case_chunk(base, len, c, g, ops));
+                        }
+                    }
+                }
+            }
+        }
+    }
+    for &(base, len, c, g) in &big {
+        let mut offs = bset(len, base);
+        for k in 0..=17u64 {
+            offs.push(c - k);
+            offs.push(c + k);
+            offs.push(2 * c - k);
+        }
+        for &a in &offs {
+            for ty in 0..9u64 {
+                if quick && !rng.chance(1, 3) {
+                    continue;
+                }
+                for code in [2u64, 4, 5] {
+                    emit(case_chunk(base, len, c, g, vec![op(code, ty, a, 0)]));
+                }
+                if ty < 4 {
+                    emit(case_chunk(base, len, c, g, vec![op(6, ty, a, 0)]));
+                }
+                let sz = TY_SIZE[ty as usize] as u64;
+                let left_chunk = if a <= len { c - a % c } else { 0 };
+                let q = left_chunk / sz.max(1);
+                for nn in [q, q + 1] {
+                    emit(case_chunk(base, len, c, g, vec![op(3, ty, a, nn)]));
+                }
+            }
         }
     }
 }
